@@ -1285,7 +1285,9 @@ func (s *Server) cmdFEXISTS(msg *Message) (resp.Value, error) {
 	}
 
 	f := o.Fields().Get(field)
-	exists := f.Name() != ""
+	// (a field may be named with the empty string; zero values are never
+	// stored, so a field that is there has a non-zero value)
+	exists := f.Name() != "" || !f.Value().IsZero()
 
 	// >> Response
 
